@@ -49,14 +49,14 @@ def _wit(ctx, key, what, inp):
 def impl():
     global _IMPL
     if _IMPL is None:
-        from srctools.vmf import VMF, Entity, Output, FixupValue, UVAxis, EntityFixup
+        from srctools.vmf import VMF, Entity, Output, FixupValue, UVAxis, EntityFixup, Side, Vec4, TriangleTag, DispFlag
         from srctools.math import Vec, Matrix, Angle, format_float
         from srctools.fgd import EntityDef, EntityTypes, ValueTypes
         from srctools import instancing
         from srctools.filesys import VirtualFileSystem
         import srctools
         G.quiet()
-        _IMPL = dict(VMF=VMF, Entity=Entity, Output=Output, FixupValue=FixupValue, UVAxis=UVAxis, EntityFixup=EntityFixup,
+        _IMPL = dict(Side=Side, Vec4=Vec4, TriangleTag=TriangleTag, DispFlag=DispFlag, VMF=VMF, Entity=Entity, Output=Output, FixupValue=FixupValue, UVAxis=UVAxis, EntityFixup=EntityFixup,
                      Vec=Vec, Matrix=Matrix, Angle=Angle, format_float=format_float, EntityDef=EntityDef,
                      EntityTypes=EntityTypes, ValueTypes=ValueTypes, I=instancing, VirtualFileSystem=VirtualFileSystem,
                      conv_float=srctools.conv_float)
@@ -167,8 +167,14 @@ def run_history(seed, numeric_vars=False, with_model=True):
         st.found = check_step(st, prng)
         st.nongeo = _nongeo(st) if st.error is None and len(st.new_ents) == len(st.old_ents) else None
         st.unplaced = _unplaced(st)
+        st.geo = _geo(st)
         out.append(st)
     # results of earlier collapses are not rewritten by later ones
+    for i, st in enumerate(out):
+        now = _geo(st)
+        if now != st.geo:
+            diff = next((f'{a} -> {b}' for a, b in zip(st.geo, now) if a != b), f'{len(st.geo)} -> {len(now)} faces')
+            st.found.append(('result-aliased', f'the brush faces added by this collapse were changed by a LATER collapse of the same template: {diff[:600]}'))
     for i, st in enumerate(out):
         if st.nongeo is not None and _nongeo(st) != st.nongeo:
             now = _nongeo(st)
@@ -208,6 +214,7 @@ def check_step(st, prng):
     clf = im['clf']
     Vec, Angle, Matrix = im['Vec'], im['Angle'], im['Matrix']
     bad = []
+    ctx_count = st.disp_faces = [0]
     R, o = st.R, st.o
     style, iname = st.params['style'], st.inst.name
     # (T) template intact
@@ -239,6 +246,29 @@ def check_step(st, prng):
                 if not all(_near(sn['p'][i][j], want[j]) for j in range(3)):
                     bad.append(('placement', f'{where}.side[{k}] plane point {so["p"][i]} placed at {sn["p"][i]}, expected rotate-then-offset {want}'))
                     return
+            # (D) displacement data: start position placed, per-vertex vectors rotated (no offset), the rest untouched
+            do, dn = so.get('d'), sn.get('d')
+            if (do is None) != (dn is None):
+                bad.append(('displacement', f'{where}.side[{k}] displacement {"lost" if dn is None else "appeared"} in the copy'))
+                return
+            if do is not None:
+                ctx_count[0] += 1
+                want = G.py_place(R, o, do['pos'])
+                if not all(_near(dn['pos'][j], want[j]) for j in range(3)):
+                    bad.append(('displacement', f'{where}.side[{k}] displacement start position {do["pos"]} placed at {dn["pos"]}, expected {want}'))
+                    return
+                if dn['rest'] != do['rest'] or len(dn['verts']) != len(do['verts']):
+                    bad.append(('displacement', f'{where}.side[{k}] displacement power/flags/elevation/tags/multiblend changed by the placement'))
+                    return
+                for vi, (vo, vn) in enumerate(zip(do['verts'], dn['verts'])):
+                    for f, nm in ((0, 'normal'), (1, 'offset'), (2, 'offset_norm')):
+                        w = G.py_rot(R, vo[f])
+                        if not all(_near(vn[f][j], w[j], 1e-6 * max(1.0, abs(w[j]))) for j in range(3)):
+                            bad.append(('displacement', f'{where}.side[{k}] displacement vertex {vi} {nm} {vo[f]} became {vn[f]}, expected the original rotated = {w}'))
+                            return
+                    if vn[3] != vo[3] or vn[4] != vo[4]:
+                        bad.append(('displacement', f'{where}.side[{k}] displacement vertex {vi} distance/alpha {vo[3:]} -> {vn[3:]}'))
+                        return
             # (U) texture moves with the geometry
             pts = list(so['p'])
             a, b = prng.uniform(-2, 2), prng.uniform(-2, 2)
@@ -386,12 +416,24 @@ def _nongeo(st):
 
 
 def _unplaced(st):
+    """All positions of a result mapped back through its placement, all displacement vectors rotated back."""
     pts = []
+    zero = (0.0, 0.0, 0.0)
     for b in list(st.new_brushes) + [b for e in st.new_ents for b in e.solids]:
         for s in b.sides:
             for p in s.planes:
                 pts.append(G.py_unplace(st.R, st.o, tuple(p)))
+            if s.is_disp:
+                pts.append(G.py_unplace(st.R, st.o, tuple(s.disp_pos)))
+                for v in s._disp_verts:
+                    for d in (v.normal, v.offset, v.offset_norm):
+                        pts.append(G.py_unplace(st.R, zero, tuple(d)))
     return pts
+
+
+def _geo(st):
+    """Exact snapshot of every face a collapse added (plane points, axes, displacement data)."""
+    return [G._side_floats(s) for b in list(st.new_brushes) + [b for e in st.new_ents for b in e.solids] for s in b.sides]
 
 
 def check_pairs(steps):
@@ -804,7 +846,7 @@ def correspond(ctx, drivers):
     corr_nested(ctx, drv)
     corr_from_angle(ctx, drv)
     # histories
-    n_hist = ctx.budget(600, 4000)
+    n_hist = ctx.budget(400, 4000)
     reqs, meta = [], []
     ctx.extra['history_seeds'] = []
     for _ in range(n_hist):
@@ -819,6 +861,7 @@ def correspond(ctx, drivers):
             ctx.count('style ' + G.STYLE_NAMES[st.params['style']])
             ctx.count('target ' + ('fresh' if st.plan['fresh'] else 'shared'))
             ctx.count('brushes placed', len(st.old_brushes)); ctx.count('entities placed', len(st.old_ents))
+            ctx.count('displacement faces placed', st.disp_faces[0])
             if st.error:
                 ctx.count('collapse_one raised')
             if st.model_req is not None and st.view is not None:
@@ -843,7 +886,7 @@ def search(ctx):
     histories with $variables inside numeric keys (outside the model), neighbours of disagreeing histories, and
     everything again if the driver could not be built."""
     impl()
-    n = ctx.budget(200, 1000)
+    n = ctx.budget(120, 1000)
     if not ctx.extra.get('histories_done'):
         n += ctx.budget(250, 2500)
         for g in [gen_graph(ctx.rng, ctx.thorough) for _ in range(ctx.budget(120, 1200))]:
